@@ -667,4 +667,90 @@ def r7_6(ctx: Ctx) -> RuleResult:
     return rr
 
 
-RULES = [r7_1, r7_2, r7_3, r7_4, r7_5, r7_6]
+def r7_7(ctx: Ctx) -> RuleResult:
+    """Well-typedness of function arguments (RFC 9535 2.4.3) as an acceptance table.  The per-argument check is
+    partially evaluated for a ValueType and a NodesType parameter against every kind of argument: a literal, a
+    singular and a non-singular query, a logical expression, and a nested function call of each declared result
+    type.  The check must raise exactly where the RFC refuses."""
+    import copy as _copy
+
+    from sa.loader import FuncInfo as _FI
+    from sa.peval import Explorer
+
+    rr = RuleResult("R7.7", "function arguments are accepted exactly as RFC 9535 2.4.3 types them", floor=14)
+    cw = ctx.repo.require_func("JSONPathEnvironment.check_well_typedness")
+    loops = [n for n in cw.node.body if isinstance(n, ast.For)]
+    if len(loops) != 1:
+        raise AnalysisError("R7.7: check_well_typedness is no longer one loop over the parameters")
+    shell = _copy.copy(cw.node)
+    shell.body = loops[0].body
+    per_arg = _FI(qualname=cw.qualname, name=cw.name, node=shell, module=cw.module, cls=cw.cls)
+    et = ctx.repo.require_class("ExpressionType")
+    # (parameter type, argument class, result type of a nested call, singular?, accepted?)
+    table = [
+        ("VALUE", "IntegerLiteral", None, None, True), ("VALUE", "StringLiteral", None, None, True),
+        ("VALUE", "SelfPath", None, True, True), ("VALUE", "SelfPath", None, False, False),
+        ("VALUE", "RootPath", None, True, True), ("VALUE", "RootPath", None, False, False),
+        ("VALUE", "InfixExpression", None, None, False),
+        ("VALUE", "FunctionExtension", "VALUE", None, True), ("VALUE", "FunctionExtension", "LOGICAL", None, False),
+        ("VALUE", "FunctionExtension", "NODES", None, False),
+        ("NODES", "SelfPath", None, True, True), ("NODES", "SelfPath", None, False, True),
+        ("NODES", "FunctionExtension", "NODES", None, True), ("NODES", "FunctionExtension", "VALUE", None, False),
+        ("NODES", "FunctionExtension", "LOGICAL", None, False), ("NODES", "IntegerLiteral", None, None, False),
+        ("NODES", "InfixExpression", None, None, False),
+    ]
+    for ptype, acls, ret, singular, want in table:
+        kcls = ctx.repo.require_class(f"jsonpath.filter.{acls}")
+
+        def oracle(t: ast.expr, env: dict, kcls=kcls, ptype=ptype, ret=ret, singular=singular) -> Optional[bool]:  # type: ignore[no-untyped-def,type-arg]
+            icl = isinstance_classes(t)
+            if icl is not None and not icl[0].startswith("self"):
+                try:
+                    classes = ctx.folder.eval_in(t.args[1], cw.module, cw.cls)  # type: ignore[attr-defined]
+                except NotConst:
+                    return None
+                classes = classes if isinstance(classes, tuple) else (classes,)
+                names = [getattr(getattr(c, "cls", None), "qualname", None) for c in classes]
+                if any(n is None for n in names):
+                    return None
+                return any(ctx.repo.is_subclass(kcls.qualname, n) for n in names)
+            if isinstance(t, ast.Call) and callee_name(t) == "singular_query":
+                return singular
+            if isinstance(t, ast.Compare) and len(t.ops) == 1 and isinstance(t.ops[0], (ast.Eq, ast.NotEq, ast.Is, ast.IsNot)):
+                for side, other in ((t.comparators[0], t.left), (t.left, t.comparators[0])):
+                    if isinstance(other, ast.Call) and callee_name(other) == "_function_return_type" and isinstance(side, ast.Constant) and side.value is None:
+                        return (ret is None) == isinstance(t.ops[0], (ast.Eq, ast.Is))
+                    try:
+                        m = ctx.folder.eval_in(side, cw.module, cw.cls)
+                    except NotConst:
+                        continue
+                    if isinstance(m, EnumMember) and m.cls is et:
+                        positive = isinstance(t.ops[0], (ast.Eq, ast.Is))
+                        if isinstance(other, ast.Call) and callee_name(other) == "_function_return_type":
+                            return (m.name == ret) == positive
+                        return (m.name == ptype) == positive
+            return None
+
+        ex = Explorer(ctx.folder, per_arg, oracle)
+        outs = ex.run({})
+        kinds = {k for k, _n, _v in outs}
+        what = f"a {ptype.capitalize()}Type parameter and " + (
+            f"a nested call of a function declared to return {ret.capitalize()}Type" if ret else
+            (f"a {'singular' if singular else 'non-singular'} query" if singular is not None else f"an argument of class {acls}"))
+        if not outs:
+            raise AnalysisError(f"R7.7: the per-argument check has no outcome for {what}")
+        accepted = kinds <= {"continue", "fall"}
+        refused = kinds == {"raise"}
+        if (want and accepted) or (not want and refused):
+            rr.ok(cw.loc(), f"{what}: {'accepted' if want else 'refused'}")
+        elif not accepted and not refused:
+            raise AnalysisError(f"R7.7: the per-argument check is not decided for {what} (outcomes {sorted(kinds)})")
+        else:
+            rr.bad(cw, cw.node, f"{what} is {'refused' if want else 'accepted'} by check_well_typedness; RFC 9535 2.4.3 "
+                   f"{'accepts' if want else 'refuses'} it" + (" (e.g. `length(match(@.a, 'x'))` compiles)" if ptype == "VALUE" and ret == "LOGICAL" else ""),
+                   construct=f"{ptype} parameter, {acls}{' returning ' + ret if ret else ''}{'' if singular is None else (' singular' if singular else ' non-singular')}: "
+                             f"{'refused' if want else 'accepted'}")
+    return rr
+
+
+RULES = [r7_1, r7_2, r7_3, r7_4, r7_5, r7_6, r7_7]
